@@ -21,6 +21,7 @@ import (
 //                  uses at that position (handler succeeds, fee step fails with gas overflow)
 //   own/price-huge fresh copy with an unpayable fee price (handler succeeds, fee debit fails)
 //   own/gas-tiny   fresh copy with gas limit 1
+//   own/gas-over-block fresh copy asking for more gas than a whole block has (block gas limit path)
 //   own/dup        fresh copy inserted AFTER the original (fails in the handler for kinds that are not repeatable)
 //   foreign        the valid target of another scenario, inserted where its preconditions do not hold
 // Only insertions whose DeliverTx code is non-zero count (the others are not failures and are skipped).
@@ -72,6 +73,12 @@ func c06Insert(h *hist, j c06Job, gas int64) (*harness.TxSpec, error) {
 		t.Fee.Price.Value = *balance.NewAmountFromBigInt(p)
 	case "gas-tiny":
 		t.Fee.Gas = 1
+	case "gas-over-block":
+		// more gas than a whole block has: fails when the block gas limit is checked
+		t.Fee.Gas = src.W.MaxGas + 1
+		if src.W.MaxGas <= 0 {
+			t.Fee.Gas = 1 << 62
+		}
 	}
 	return t, nil
 }
@@ -245,8 +252,14 @@ func c06(args []string) int {
 		for bi := 0; bi < len(h.Blocks)-c06Extra+1 && bi < len(h.Blocks); bi++ {
 			n := len(h.Blocks[bi].Txs)
 			for k := 0; k < n; k++ {
-				for _, m := range []string{"gas-1", "price-huge", "gas-tiny"} {
-					jobList = append(jobList, c06Job{Scn: sc.ID(), Block: bi, At: k, Tx: flat + k, Mode: m})
+				for _, m := range []string{"gas-1", "price-huge", "gas-tiny", "gas-over-block"} {
+					// a failing fresh copy of transaction k at every position up to its own
+					for at := 0; at <= k; at++ {
+						if m == "gas-1" && at != k {
+							continue // the gas measured at another position would not be "one below its own use"
+						}
+						jobList = append(jobList, c06Job{Scn: sc.ID(), Block: bi, At: at, Tx: flat + k, Mode: m})
+					}
 				}
 				jobList = append(jobList, c06Job{Scn: sc.ID(), Block: bi, At: k + 1, Tx: flat + k, Mode: "dup"})
 			}
